@@ -14,6 +14,7 @@ type V0 struct {
 func (v V0) Ser() int64 { return v.S }
 func (v V0) MI0()       {}
 func (v V0) MI1()       {}
+func (v V0) MI2()       {}
 
 type V1 struct {
 	S    int64
@@ -23,6 +24,7 @@ type V1 struct {
 func (v V1) Ser() int64 { return v.S }
 func (v V1) MI1()       {}
 func (v V1) MI2()       {}
+func (v V1) MI3()       {}
 
 type V2 struct {
 	S    int64
@@ -32,6 +34,7 @@ type V2 struct {
 func (v V2) Ser() int64 { return v.S }
 func (v V2) MI2()       {}
 func (v V2) MI3()       {}
+func (v V2) MI0()       {}
 
 type V3 struct {
 	S    int64
@@ -41,6 +44,7 @@ type V3 struct {
 func (v V3) Ser() int64 { return v.S }
 func (v V3) MI3()       {}
 func (v V3) MI0()       {}
+func (v V3) MI1()       {}
 
 type V4 struct {
 	S    int64
@@ -50,6 +54,7 @@ type V4 struct {
 func (v V4) Ser() int64 { return v.S }
 func (v V4) MI0()       {}
 func (v V4) MI1()       {}
+func (v V4) MI2()       {}
 
 type V5 struct {
 	S    int64
@@ -59,6 +64,7 @@ type V5 struct {
 func (v V5) Ser() int64 { return v.S }
 func (v V5) MI1()       {}
 func (v V5) MI2()       {}
+func (v V5) MI3()       {}
 
 type V6 struct {
 	S    int64
@@ -68,6 +74,7 @@ type V6 struct {
 func (v V6) Ser() int64 { return v.S }
 func (v V6) MI2()       {}
 func (v V6) MI3()       {}
+func (v V6) MI0()       {}
 
 type V7 struct {
 	S    int64
@@ -77,6 +84,7 @@ type V7 struct {
 func (v V7) Ser() int64 { return v.S }
 func (v V7) MI3()       {}
 func (v V7) MI0()       {}
+func (v V7) MI1()       {}
 
 type V8 struct {
 	S    int64
@@ -86,6 +94,7 @@ type V8 struct {
 func (v V8) Ser() int64 { return v.S }
 func (v V8) MI0()       {}
 func (v V8) MI1()       {}
+func (v V8) MI2()       {}
 
 type V9 struct {
 	S    int64
@@ -95,6 +104,7 @@ type V9 struct {
 func (v V9) Ser() int64 { return v.S }
 func (v V9) MI1()       {}
 func (v V9) MI2()       {}
+func (v V9) MI3()       {}
 
 type V10 struct {
 	S    int64
@@ -104,6 +114,7 @@ type V10 struct {
 func (v V10) Ser() int64 { return v.S }
 func (v V10) MI2()       {}
 func (v V10) MI3()       {}
+func (v V10) MI0()       {}
 
 type V11 struct {
 	S    int64
@@ -113,6 +124,7 @@ type V11 struct {
 func (v V11) Ser() int64 { return v.S }
 func (v V11) MI3()       {}
 func (v V11) MI0()       {}
+func (v V11) MI1()       {}
 
 type V12 struct {
 	S    int64
@@ -122,6 +134,7 @@ type V12 struct {
 func (v V12) Ser() int64 { return v.S }
 func (v V12) MI0()       {}
 func (v V12) MI1()       {}
+func (v V12) MI2()       {}
 
 type V13 struct {
 	S    int64
@@ -131,6 +144,7 @@ type V13 struct {
 func (v V13) Ser() int64 { return v.S }
 func (v V13) MI1()       {}
 func (v V13) MI2()       {}
+func (v V13) MI3()       {}
 
 type V14 struct {
 	S    int64
@@ -140,6 +154,7 @@ type V14 struct {
 func (v V14) Ser() int64 { return v.S }
 func (v V14) MI2()       {}
 func (v V14) MI3()       {}
+func (v V14) MI0()       {}
 
 type V15 struct {
 	S    int64
@@ -149,6 +164,7 @@ type V15 struct {
 func (v V15) Ser() int64 { return v.S }
 func (v V15) MI3()       {}
 func (v V15) MI0()       {}
+func (v V15) MI1()       {}
 
 var vTypes = []reflect.Type{reflect.TypeOf(V0{}), reflect.TypeOf(V1{}), reflect.TypeOf(V2{}), reflect.TypeOf(V3{}), reflect.TypeOf(V4{}), reflect.TypeOf(V5{}), reflect.TypeOf(V6{}), reflect.TypeOf(V7{}), reflect.TypeOf(V8{}), reflect.TypeOf(V9{}), reflect.TypeOf(V10{}), reflect.TypeOf(V11{}), reflect.TypeOf(V12{}), reflect.TypeOf(V13{}), reflect.TypeOf(V14{}), reflect.TypeOf(V15{})}
 var vNew = []func(int64) interface{}{func(s int64) interface{} { return V0{S: s, Live: true} }, func(s int64) interface{} { return V1{S: s, Live: true} }, func(s int64) interface{} { return V2{S: s, Live: true} }, func(s int64) interface{} { return V3{S: s, Live: true} }, func(s int64) interface{} { return V4{S: s, Live: true} }, func(s int64) interface{} { return V5{S: s, Live: true} }, func(s int64) interface{} { return V6{S: s, Live: true} }, func(s int64) interface{} { return V7{S: s, Live: true} }, func(s int64) interface{} { return V8{S: s, Live: true} }, func(s int64) interface{} { return V9{S: s, Live: true} }, func(s int64) interface{} { return V10{S: s, Live: true} }, func(s int64) interface{} { return V11{S: s, Live: true} }, func(s int64) interface{} { return V12{S: s, Live: true} }, func(s int64) interface{} { return V13{S: s, Live: true} }, func(s int64) interface{} { return V14{S: s, Live: true} }, func(s int64) interface{} { return V15{S: s, Live: true} }}
